@@ -41,6 +41,11 @@ theorem setters_legal (code : Bytes) (curt : Bool) (size : Nat) (hist : List Set
     (h0 : mkCfg code curt size = .ok cfg0) (h : applySetters cfg0 hist = .ok cfg) : Legal cfg :=
   applySetters_legal cfg0 cfg hist (mkCfg_legal code curt size cfg0 h0) h
 
+/-- … also when refused assignments (a code outside `Zedex` raises before anything is stored) are survived and the history goes on -/
+theorem setters_skip_legal (code : Bytes) (curt : Bool) (size : Nat) (hist : List Setter) (cfg0 : TxCfg)
+    (h0 : mkCfg code curt size = .ok cfg0) : Legal (applySettersSkip cfg0 hist) :=
+  applySettersSkip_legal cfg0 hist (mkCfg_legal code curt size cfg0 h0)
+
 /-- … and an assignment never lowers a requested size: after `.size = n` the stored size is ≥ n; re-clamping a legal configuration
 (what `self.size = self._size` does when code and encoding did not change) is the identity -/
 theorem size_setter_spec (cfg cfg' : TxCfg) (n : Nat) (h : applySetter cfg (.size n) = .ok cfg') :
@@ -411,7 +416,7 @@ theorem grams_parse_b64 (cfg : TxCfg) (hleg : Legal cfg) (hc : cfg.curt = false)
   rw [hzs] at e1; cases e1
   rw [hp] at e2; cases e2
   rw [hns] at e3; cases e3
-  obtain ⟨p1, p2, p3, p4, p5, p6, p7, p8, _, _, _, _⟩ := pair_facts cfg.code ncode zs ns hp hzs hns
+  obtain ⟨p1, p2, p3, p4, p5, p6, p7, p8, _, _, _, _, _, _, _⟩ := pair_facts cfg.code ncode zs ns hp hzs hns
   obtain ⟨_, hnb, _, hmms⟩ := rendPlan_ok cfg memo.length vid mid pl hleg hpl
   have hwz : pl.zcodeb = cfg.code := by simp [wireOf, hc] at w1; exact w1.symm
   have hwn : pl.ncodeb = ncode := by simp [wireOf, hc] at w2; exact w2.symm
@@ -467,7 +472,7 @@ theorem grams_parse_b2 (cfg : TxCfg) (hleg : Legal cfg) (hc : cfg.curt = true) (
   rw [hzs] at e1; cases e1
   rw [hp] at e2; cases e2
   rw [hns] at e3; cases e3
-  obtain ⟨p1, p2, p3, p4, p5, p6, p7, p8, p9, _, _, _⟩ := pair_facts cfg.code ncode zs ns hp hzs hns
+  obtain ⟨p1, p2, p3, p4, p5, p6, p7, p8, p9, _, _, _, _, _, _⟩ := pair_facts cfg.code ncode zs ns hp hzs hns
   obtain ⟨_, hnb, _, hmms⟩ := rendPlan_ok cfg memo.length vid mid pl hleg hpl
   have dz : decodeB64 cfg.code = some pl.zcodeb := by
     simp only [wireOf, hc, if_true, decodeOrRaise] at w1; split at w1 <;> simp_all
@@ -581,6 +586,74 @@ theorem end_to_end_generic_zeroth_first (authic : Bool) (S : SMemo) (hn : 1 ≤ 
         · exact his i hi)
     (picks_zeroth_first authic S hn V G hG0 hG rest his [] (noEntry_SInv S [] rfl))
 
+/-- SEVERAL memos interleaved, generic composition: a family `F` of memos with pairwise different ids (none carrying a signer id), the grams
+of memo `S` being `G S 0 … G S (n_S - 1)`, each parsed by `pick` into gram `i` of `S` in any state holding no vid for its id.  ANY sequence `js`
+of (memo, gram number) — the grams of all memos shuffled together, any order, any duplicates — handed to an empty receiver in one
+`serviceAllRx()`: nothing raises, the queue is consumed, and a record is delivered if and only if it is the record (text, source, vid) of a
+memo of the family ALL of whose grams occur in the sequence — each memo independently of the others.  No memo is delivered twice: the
+delivered list is `deliv` of a list of entries with pairwise different ids, each belonging to a memo of the family. -/
+theorem end_to_end_interleaved (F : List SMemo) (hinj : MidInj F) (hv : ∀ S ∈ F, S.vid = none)
+    (hn : ∀ S ∈ F, 1 ≤ S.bodies.length) (hu : ∀ S ∈ F, utf8Valid S.bodies.flatten = true)
+    (V : Bytes → Bytes → Bytes → Except Exn Unit) (G : SMemo → Nat → Bytes)
+    (hG : ∀ S ∈ F, ∀ i, i < S.bodies.length → ∀ vidOf : Bytes → Option Bytes, vidOf S.mid = none → pick false vidOf V (G S i) = .ok (S.gram i))
+    (js : List (SMemo × Nat)) (hjs : ∀ x ∈ js, x.1 ∈ F ∧ x.2 < x.1.bodies.length) :
+    ∃ o, serviceAllRx false V [] (js.map fun x => (G x.1 x.2, x.1.src)) = .ok o ∧ o.queue = [] ∧
+      (∀ m, m ∈ o.delivered ↔ ∃ S ∈ F, (∀ i, i < S.bodies.length → (S, i) ∈ js) ∧ m = ⟨S.bodies.flatten, S.src, S.vid⟩) ∧
+      (∃ es1, MidsNodup es1 ∧ o.delivered = es1.filterMap deliv ∧ ∀ e ∈ es1, ∃ S ∈ F, e.mid = S.mid) := by
+  have hnd0 : MidsNodup [] := by simp [MidsNodup]
+  have hpk := picks_family F hinj hv V G hG js hjs [] (fun S _ => noEntry_SInv S [] rfl)
+  have hsvc := service_is_store_then_fuse false V _ [] _ hpk
+  refine ⟨_, hsvc, rfl, ?_, ?_⟩
+  · have hnd1 := storeAll_nodup (js.map fun x => (x.1.gram x.2, x.1.src)) [] hnd0
+    have hper : ∀ S ∈ F, ((∀ i, i < S.bodies.length → (S, i) ∈ js) →
+          (findEntry S.mid (storeAll (js.map fun x => (x.1.gram x.2, x.1.src)) [])).bind deliv = some ⟨S.bodies.flatten, S.src, S.vid⟩) ∧
+        (¬ (∀ i, i < S.bodies.length → (S, i) ∈ js) →
+          (findEntry S.mid (storeAll (js.map fun x => (x.1.gram x.2, x.1.src)) [])).bind deliv = none) := by
+      intro S hS
+      obtain ⟨_, hyes, hno⟩ := reassembly_one_batch S (hn S hS) (hu S hS) [] hnd0 rfl _ (genuine_family F hinj js hjs S hS)
+      constructor
+      · intro hall
+        exact (hyes (fun i hi => (idx_family F hinj js hjs S hS i).mpr (hall i hi))).1
+      · intro hnall
+        apply hno
+        intro hall
+        exact hnall (fun i hi => (idx_family F hinj js hjs S hS i).mp (hall i hi))
+    intro m
+    simp only [List.mem_filterMap]
+    constructor
+    · rintro ⟨e, he, hd⟩
+      rcases storeAll_mid_mem _ [] e he with ⟨y, hy, hym⟩ | h
+      · obtain ⟨x, hx, rfl⟩ := List.mem_map.mp hy
+        obtain ⟨hxF, _⟩ := hjs x hx
+        have hfe : findEntry x.1.mid (storeAll (js.map fun x => (x.1.gram x.2, x.1.src)) []) = some e := by
+          have := findEntry_of_mem_nodup _ hnd1 e he
+          rw [← hym] at this; exact this
+        by_cases hall : ∀ i, i < x.1.bodies.length → (x.1, i) ∈ js
+        · have := (hper x.1 hxF).1 hall
+          rw [hfe] at this
+          simp only [Option.bind_some] at this
+          rw [hd] at this
+          exact ⟨x.1, hxF, hall, (Option.some.inj this)⟩
+        · have := (hper x.1 hxF).2 hall
+          rw [hfe] at this
+          simp only [Option.bind_some] at this
+          rw [hd] at this; cases this
+      · simp at h
+    · rintro ⟨S, hS, hall, rfl⟩
+      have := (hper S hS).1 hall
+      cases hfe : findEntry S.mid (storeAll (js.map fun x => (x.1.gram x.2, x.1.src)) []) with
+      | none => rw [hfe] at this; simp at this
+      | some e =>
+        rw [hfe] at this
+        simp only [Option.bind_some] at this
+        exact ⟨e, (findEntry_mem _ _ _ hfe).1, this⟩
+  · refine ⟨_, storeAll_nodup _ [] hnd0, rfl, ?_⟩
+    intro e he
+    rcases storeAll_mid_mem _ [] e he with ⟨y, hy, hym⟩ | h
+    · obtain ⟨x, hx, rfl⟩ := List.mem_map.mp hy
+      exact ⟨x.1, (hjs x hx).1, hym.symm⟩
+    · simp at h
+
 /-- END TO END, unsigned codes with Base64 text headers: for ANY configuration history ending in such a code, ANY non-empty memo `rend`
 accepts, and ANY delivery sequence of its grams (order, duplicates) to an empty receiver in one service call: the memo is delivered exactly
 once — same text, same source, no signer id — if and only if every gram is in the sequence; with a gram missing nothing is delivered -/
@@ -642,7 +715,7 @@ theorem grams_parse_b64_signed (authic : Bool) (cfg : TxCfg) (hleg : Legal cfg) 
   rw [hzs] at e1; cases e1
   rw [hp] at e2; cases e2
   rw [hns] at e3; cases e3
-  obtain ⟨p1, p2, p3, p4, p5, p6, p7, p8, _, p10, p11, p12⟩ := pair_facts cfg.code ncode zs ns hp hzs hns
+  obtain ⟨p1, p2, p3, p4, p5, p6, p7, p8, _, p10, p11, p12, _, _, _⟩ := pair_facts cfg.code ncode zs ns hp hzs hns
   obtain ⟨ha1, ha2⟩ := p12 hs.2
   obtain ⟨_, hnb, _, hmms⟩ := rendPlan_ok cfg memo.length (some vidt) mid pl hleg hpl
   simp only [Option.getD_some] at v1 v2 v3
@@ -730,6 +803,244 @@ theorem end_to_end_signed_b64 (authic : Bool) (cfg : TxCfg) (hleg : Legal cfg) (
     (fun i hi vidOf hvo => hpk i hi vidOf (Or.inr hvo))
     rest (by intro i hi; have := his i hi; simpa [← hlen] using this)
   simpa [hflat, ← hlen] using this
+
+/-- rend → pick, SIGNED codes, Base2 (`curt`) headers: same as `grams_parse_b64_signed`; on the wire mid, vid and signature are raw bytes, `pick`
+re-encodes them and — `encodeB64 (decodeB64 t) = t` — hands back exactly the texts the sender used.  `sign` returns the signature in wire
+form (raw); the assumption `hsv` is about its Base64 text, which is what `verify` is given -/
+theorem grams_parse_b2_signed (authic : Bool) (cfg : TxCfg) (hleg : Legal cfg) (hc : cfg.curt = true) (sign : Bytes → Bytes → Except Exn Bytes)
+    (memo vidt mid : Bytes) (grams : List Bytes) (hne : memo ≠ []) (hvu : utf8Valid vidt = true)
+    (zs ns : Sizage) (ncode : Bytes) (hzs : sizesOf cfg.code = .ok zs) (hp : lookupPair cfg.code = .ok ncode) (hns : sizesOf ncode = .ok ns)
+    (hs : zs.vz ≠ 0 ∧ zs.az ≠ 0) (V : Bytes → Bytes → Bytes → Except Exn Unit)
+    (hsv : ∀ ser sig, sign vidt ser = .ok sig → sig.length = zs.scale.az ∧ V vidt (encodeB64 sig) ser = .ok ())
+    (h : rend cfg sign memo (some vidt) mid = .ok grams) :
+    ∃ bs : List Bytes, bs.flatten = memo ∧ grams.length = bs.length ∧ 1 ≤ bs.length ∧
+      ∀ i (hi : i < grams.length) (vidOf : Bytes → Option Bytes), (i = 0 ∨ vidOf mid = some vidt) →
+        pick authic vidOf V grams[i] = .ok ⟨mid, some vidt, i, if i = 0 then some bs.length else none, bs.getD i []⟩ := by
+  obtain ⟨pl, hpl, hflat, hbnd, hlen, hcnt, hg0, hgi⟩ := rend_fuse cfg sign memo (some vidt) mid grams hleg hne h
+  obtain ⟨zs', ncode', ns', e1, e2, e3, hml, w1, w2, w3, f1, f2, f3, f4, f5, v1, v2, v3⟩ := rendPlan_fields cfg memo.length (some vidt) mid pl hpl
+  rw [hzs] at e1; cases e1
+  rw [hp] at e2; cases e2
+  rw [hns] at e3; cases e3
+  obtain ⟨p1, p2, p3, p4, p5, p6, p7, p8, p9, p10, p11, p12, p13, p14, p15⟩ := pair_facts cfg.code ncode zs ns hp hzs hns
+  obtain ⟨ha1, ha2⟩ := p12 hs.2
+  have hsaz := p13 hs.2
+  have hsvz := p14 hs.1
+  obtain ⟨_, hnb, _, hmms⟩ := rendPlan_ok cfg memo.length (some vidt) mid pl hleg hpl
+  simp only [Option.getD_some] at v1 v2 v3
+  obtain ⟨hvne, hvlen⟩ := v3 hs.1
+  have dz : decodeB64 cfg.code = some pl.zcodeb := by
+    simp only [wireOf, hc, if_true, decodeOrRaise] at w1; split at w1 <;> simp_all
+  have dn : decodeB64 ncode = some pl.ncodeb := by
+    simp only [wireOf, hc, if_true, decodeOrRaise] at w2; split at w2 <;> simp_all
+  have dm : decodeB64 mid = some pl.midb := by
+    simp only [wireOf, hc, if_true, decodeOrRaise] at w3; split at w3 <;> simp_all
+  have dv : decodeB64 vidt = some pl.vidb := by
+    simp only [wireOf, hc, if_true, decodeOrRaise] at v2; split at v2 <;> simp_all
+  have em : encodeB64 pl.midb = mid := encode_decode mid pl.midb dm
+  have ev : encodeB64 pl.vidb = vidt := encode_decode vidt pl.vidb dv
+  have hmlen : pl.midb.length = zs.scale.mz := by
+    have := decodeB64_length mid pl.midb dm
+    simp only [Sizage.scale]; omega
+  have hvlen2 : pl.vidb.length = zs.scale.vz := by
+    have := decodeB64_length vidt pl.vidb dv
+    simp only [Sizage.scale]; omega
+  have hnz : pl.nz = zs.scale.nz := by simp [zszOf, hc] at f1; exact f1
+  have hzv : pl.zWithVid = true := by simp [zszOf, hc, hsvz] at f2; exact f2
+  have hza : pl.zSigned = true := by simp [zszOf, hc, hsaz] at f3; exact f3
+  have hnv : pl.nWithVid = false := by simp [p11] at f4; exact f4
+  have hna : pl.nSigned = true := by simp [p10, hs.2] at f5; exact f5
+  have hsn : ns.scale.nz = zs.scale.nz := by simp [Sizage.scale, p1]
+  have hsm : ns.scale.mz = zs.scale.mz := by simp [Sizage.scale, p2]
+  have hsa : ns.scale.az = zs.scale.az := by simp [Sizage.scale, p10]
+  have hsv0 : ns.scale.vz = 0 := by simp [Sizage.scale, p11]
+  have hge1 : 1 ≤ (bodies pl.zbz pl.nbz memo).length := by
+    rw [bodies_length pl.zbz pl.nbz memo hne hnb]
+    unfold gramCount; split
+    · exact Nat.le_refl 1
+    · exact Nat.le_add_right 1 _
+  have hve : vidt.isEmpty = false := by cases vidt <;> simp_all
+  refine ⟨bodies pl.zbz pl.nbz memo, hflat, hlen, hge1, ?_⟩
+  intro i hi vidOf hcase
+  have hib : i < (bodies pl.zbz pl.nbz memo).length := by omega
+  have hgetD : (bodies pl.zbz pl.nbz memo).getD i [] = (bodies pl.zbz pl.nbz memo)[i] := by
+    simp [List.getD_eq_getElem?_getD, List.getElem?_eq_getElem hib]
+  rw [hgetD]
+  cases i with
+  | zero =>
+    have hg := hg0 hib hi
+    simp only [mkGram, hzv, hza, v1, if_true] at hg
+    split at hg
+    · rename_i sig hsig
+      obtain ⟨hsl, hver⟩ := hsv _ sig hsig
+      rw [← Except.ok.inj hg]
+      have hsne : sig ≠ [] := by intro h0; rw [h0] at hsl; simp at hsl; exact hsaz hsl.symm
+      have hse : (encodeB64 sig).isEmpty = false := by
+        have := encodeB64_ne_nil sig hsne
+        cases hh : encodeB64 sig <;> simp_all
+      have := header_roundtrip_b2 authic vidOf V cfg.code pl.zcodeb pl.gcnt pl.midb pl.vidb (bodies pl.zbz pl.nbz memo)[0] sig zs grams.length
+        hzs (fun _ => ha1) dz (by rw [← hnz, ← hc]; exact hcnt) hmlen hvlen2 hsl
+      simp only [List.append_assoc] at this ⊢
+      rw [this, em, ev]
+      have hz' : cfg.code ∈ Gen.zeroDex := by simpa using p6
+      have hver' : V vidt (encodeB64 sig) (pl.zcodeb ++ (pl.gcnt ++ (pl.midb ++ (pl.vidb ++ (bodies pl.zbz pl.nbz memo)[0])))) = .ok () := by
+        simpa [List.append_assoc] using hver
+      simp [classify, hz', pickTail, hsaz, hse, hve, hver', hvu, hvne, hlen]
+    · simp at hg
+  | succ k =>
+    have hvo : vidOf mid = some vidt := by
+      rcases hcase with h0 | h0
+      · omega
+      · exact h0
+    obtain ⟨num, hnum, hg⟩ := hgi k hib hi
+    simp only [mkGram, hnv, hna, v1, if_true, Bool.false_eq_true, if_false, List.append_nil] at hg
+    split at hg
+    · rename_i sig hsig
+      obtain ⟨hsl, hver⟩ := hsv _ sig hsig
+      rw [← Except.ok.inj hg]
+      have hsne : sig ≠ [] := by intro h0; rw [h0] at hsl; simp at hsl; exact hsaz hsl.symm
+      have hse : (encodeB64 sig).isEmpty = false := by
+        have := encodeB64_ne_nil sig hsne
+        cases hh : encodeB64 sig <;> simp_all
+      have := header_roundtrip_b2 authic vidOf V ncode pl.ncodeb num pl.midb [] (bodies pl.zbz pl.nbz memo)[k + 1] sig ns (k + 1)
+        hns (fun _ => ha2) dn (by rw [hsn, ← hnz, ← hc]; exact hnum) (by rw [hsm]; exact hmlen) (by simp [hsv0]) (by rw [hsa]; exact hsl)
+      simp only [List.nil_append, List.append_assoc] at this ⊢
+      rw [this, em]
+      have hz' : ncode ∉ Gen.zeroDex := by simpa using p7
+      have hg' : ncode ∈ Gen.gramDex := by simpa using p8
+      have hsaz' : ns.scale.az ≠ 0 := by rw [hsa]; exact hsaz
+      have hver' : V vidt (encodeB64 sig) (pl.ncodeb ++ (num ++ (pl.midb ++ (bodies pl.zbz pl.nbz memo)[k + 1]))) = .ok () := by
+        simpa [List.append_assoc] using hver
+      simp [classify, hz', hg', pickTail, hsaz', hse, hve, hvo, hver', hvu, hvne, encodeB64]
+    · simp at hg
+
+/-- END TO END, SIGNED codes with Base2 (`curt`) headers, under the guard of K2 (F32) that the zeroth gram arrives first — same statement as
+`end_to_end_signed_b64` -/
+theorem end_to_end_signed_b2 (authic : Bool) (cfg : TxCfg) (hleg : Legal cfg) (hc : cfg.curt = true) (sign : Bytes → Bytes → Except Exn Bytes)
+    (memo vidt mid : Bytes) (grams : List Bytes) (hne : memo ≠ []) (hvu : utf8Valid vidt = true) (hmemo : utf8Valid memo = true)
+    (zs ns : Sizage) (ncode : Bytes) (hzs : sizesOf cfg.code = .ok zs) (hp : lookupPair cfg.code = .ok ncode) (hns : sizesOf ncode = .ok ns)
+    (hs : zs.vz ≠ 0 ∧ zs.az ≠ 0) (V : Bytes → Bytes → Bytes → Except Exn Unit)
+    (hsv : ∀ ser sig, sign vidt ser = .ok sig → sig.length = zs.scale.az ∧ V vidt (encodeB64 sig) ser = .ok ())
+    (h : rend cfg sign memo (some vidt) mid = .ok grams) (src : Nat) (rest : List Nat) (his : ∀ i ∈ rest, i < grams.length) :
+    ∃ o, serviceAllRx authic V [] ((0 :: rest).map fun i => (grams.getD i [], src)) = .ok o ∧ o.queue = [] ∧
+      ((∀ i, i < grams.length → i ∈ 0 :: rest) → o.delivered = [⟨memo, src, some vidt⟩] ∧ o.entries = []) ∧
+      (¬ (∀ i, i < grams.length → i ∈ 0 :: rest) → o.delivered = []) := by
+  obtain ⟨bs, hflat, hlen, hge, hparse⟩ := grams_parse_b2_signed authic cfg hleg hc sign memo vidt mid grams hne hvu zs ns ncode hzs hp hns hs V hsv h
+  have hpk : ∀ i, i < bs.length → ∀ vidOf : Bytes → Option Bytes, (i = 0 ∨ vidOf mid = some vidt) →
+      pick authic vidOf V (grams.getD i []) = .ok ((⟨mid, bs, src, some vidt⟩ : SMemo).gram i) := by
+    intro i hi vidOf hcase
+    have hig : i < grams.length := by rw [hlen]; exact hi
+    have := hparse i hig vidOf hcase
+    simp only [List.getD_eq_getElem?_getD, List.getElem?_eq_getElem hig, Option.getD_some]
+    rw [this]; rfl
+  have := end_to_end_generic_zeroth_first authic ⟨mid, bs, src, some vidt⟩ hge (by simpa [hflat] using hmemo) V (fun i => grams.getD i [])
+    (fun vidOf => hpk 0 (by omega) vidOf (Or.inl rfl))
+    (fun i hi vidOf hvo => hpk i hi vidOf (Or.inr hvo))
+    rest (by intro i hi; have := his i hi; simpa [← hlen] using this)
+  simpa [hflat, ← hlen] using this
+
+/-- END TO END, TWO memos interleaved (unsigned codes, Base64 text headers; the two senders may be configured differently): the grams of two
+`rend` outputs with different memo ids, shuffled together in ANY order with ANY duplicates (`false` = a gram of the first memo, `true` = of the
+second), one service call on an empty receiver: a record is delivered iff it is the first memo and all its grams arrived, or the second memo and
+all its grams arrived — each independently of the other -/
+theorem end_to_end_two_memos_b64 (cfg1 cfg2 : TxCfg) (hl1 : Legal cfg1) (hl2 : Legal cfg2) (hc1 : cfg1.curt = false) (hc2 : cfg2.curt = false)
+    (sign : Bytes → Bytes → Except Exn Bytes) (memo1 memo2 : Bytes) (vid1 vid2 : Option Bytes) (mid1 mid2 : Bytes) (g1 g2 : List Bytes)
+    (hne1 : memo1 ≠ []) (hne2 : memo2 ≠ []) (hmu1 : utf8Valid mid1 = true) (hmu2 : utf8Valid mid2 = true)
+    (hu1 : utf8Valid memo1 = true) (hu2 : utf8Valid memo2 = true) (hmid : mid1 ≠ mid2)
+    (zs1 ns1 zs2 ns2 : Sizage) (nc1 nc2 : Bytes)
+    (hz1 : sizesOf cfg1.code = .ok zs1) (hp1 : lookupPair cfg1.code = .ok nc1) (hn1 : sizesOf nc1 = .ok ns1)
+    (hz2 : sizesOf cfg2.code = .ok zs2) (hp2 : lookupPair cfg2.code = .ok nc2) (hn2 : sizesOf nc2 = .ok ns2)
+    (hun1 : zs1.vz = 0 ∧ zs1.az = 0 ∧ ns1.vz = 0 ∧ ns1.az = 0) (hun2 : zs2.vz = 0 ∧ zs2.az = 0 ∧ ns2.vz = 0 ∧ ns2.az = 0)
+    (h1 : rend cfg1 sign memo1 vid1 mid1 = .ok g1) (h2 : rend cfg2 sign memo2 vid2 mid2 = .ok g2)
+    (src1 src2 : Nat) (V : Bytes → Bytes → Bytes → Except Exn Unit) (js : List (Bool × Nat))
+    (hjs : ∀ x ∈ js, x.2 < (if x.1 then g2.length else g1.length)) :
+    ∃ o, serviceAllRx false V [] (js.map fun x => if x.1 then (g2.getD x.2 [], src2) else (g1.getD x.2 [], src1)) = .ok o ∧ o.queue = [] ∧
+      ∀ m, m ∈ o.delivered ↔
+        ((∀ i, i < g1.length → (false, i) ∈ js) ∧ m = ⟨memo1, src1, none⟩) ∨ ((∀ i, i < g2.length → (true, i) ∈ js) ∧ m = ⟨memo2, src2, none⟩) := by
+  obtain ⟨bs1, hf1, hlen1, hge1, hpa1⟩ := grams_parse_b64 cfg1 hl1 hc1 sign memo1 vid1 mid1 g1 hne1 hmu1 zs1 ns1 nc1 hz1 hp1 hn1 hun1 h1
+  obtain ⟨bs2, hf2, hlen2, hge2, hpa2⟩ := grams_parse_b64 cfg2 hl2 hc2 sign memo2 vid2 mid2 g2 hne2 hmu2 zs2 ns2 nc2 hz2 hp2 hn2 hun2 h2
+  let S1 : SMemo := ⟨mid1, bs1, src1, none⟩
+  let S2 : SMemo := ⟨mid2, bs2, src2, none⟩
+  let G : SMemo → Nat → Bytes := fun S i => if S.mid = mid1 then g1.getD i [] else g2.getD i []
+  have hinj : MidInj [S1, S2] := by
+    intro a ha b hb hab
+    simp only [List.mem_cons, List.mem_nil_iff, or_false] at ha hb
+    rcases ha with rfl | rfl <;> rcases hb with rfl | rfl
+    · rfl
+    · exact absurd hab hmid
+    · exact absurd hab.symm hmid
+    · rfl
+  have hG : ∀ S ∈ [S1, S2], ∀ i, i < S.bodies.length → ∀ vidOf : Bytes → Option Bytes, vidOf S.mid = none →
+      pick false vidOf V (G S i) = .ok (S.gram i) := by
+    intro S hS i hi vidOf hvo
+    simp only [List.mem_cons, List.mem_nil_iff, or_false] at hS
+    rcases hS with rfl | rfl
+    · have hig : i < g1.length := by rw [hlen1]; exact hi
+      have := hpa1 i hig vidOf V hvo
+      simp only [G, S1, if_true, List.getD_eq_getElem?_getD, List.getElem?_eq_getElem hig, Option.getD_some]
+      rw [this]; rfl
+    · have hig : i < g2.length := by rw [hlen2]; exact hi
+      have := hpa2 i hig vidOf V hvo
+      have hne : ¬ (mid2 = mid1) := fun h => hmid h.symm
+      simp only [G, S2, hne, if_false, List.getD_eq_getElem?_getD, List.getElem?_eq_getElem hig, Option.getD_some]
+      rw [this]; rfl
+  have key := end_to_end_interleaved [S1, S2] hinj (by intro S hS; simp only [List.mem_cons, List.mem_nil_iff, or_false] at hS; rcases hS with rfl | rfl <;> rfl)
+    (by intro S hS; simp only [List.mem_cons, List.mem_nil_iff, or_false] at hS; rcases hS with rfl | rfl <;> assumption)
+    (by intro S hS; simp only [List.mem_cons, List.mem_nil_iff, or_false] at hS
+        rcases hS with rfl | rfl
+        · simpa [S1, hf1] using hu1
+        · simpa [S2, hf2] using hu2)
+    V G hG (js.map fun x => (if x.1 then S2 else S1, x.2))
+    (by intro y hy
+        obtain ⟨x, hx, rfl⟩ := List.mem_map.mp hy
+        have := hjs x hx
+        cases hb : x.1 <;> simp [hb, S1, S2] at this ⊢ <;> omega)
+  obtain ⟨o, ho, hq, hiff, _⟩ := key
+  have hmap : ((js.map fun x => (if x.1 then S2 else S1, x.2)).map fun x => (G x.1 x.2, x.1.src)) =
+      js.map fun x => if x.1 then (g2.getD x.2 [], src2) else (g1.getD x.2 [], src1) := by
+    rw [List.map_map]
+    apply List.map_congr_left
+    intro x _
+    have hne : ¬ (mid2 = mid1) := fun h => hmid h.symm
+    cases hb : x.1 <;> simp [G, S1, S2, hb, hne]
+  rw [hmap] at ho
+  refine ⟨o, ho, hq, ?_⟩
+  intro m
+  rw [hiff m]
+  have mem1 : ∀ i, (S1, i) ∈ (js.map fun x => (if x.1 then S2 else S1, x.2)) ↔ (false, i) ∈ js := by
+    intro i
+    simp only [List.mem_map, Prod.mk.injEq]
+    constructor
+    · rintro ⟨x, hx, h1, h2⟩
+      cases hb : x.1
+      · have : x = (false, i) := by cases x; simp_all
+        rw [← this]; exact hx
+      · rw [hb] at h1; simp only [if_true] at h1
+        have : mid2 = mid1 := congrArg SMemo.mid h1
+        exact absurd this.symm hmid
+    · intro h; exact ⟨(false, i), h, by simp, rfl⟩
+  have mem2 : ∀ i, (S2, i) ∈ (js.map fun x => (if x.1 then S2 else S1, x.2)) ↔ (true, i) ∈ js := by
+    intro i
+    simp only [List.mem_map, Prod.mk.injEq]
+    constructor
+    · rintro ⟨x, hx, h1, h2⟩
+      cases hb : x.1
+      · rw [hb] at h1; simp only [Bool.false_eq_true, if_false] at h1
+        have : mid1 = mid2 := congrArg SMemo.mid h1
+        exact absurd this hmid
+      · have : x = (true, i) := by cases x; simp_all
+        rw [← this]; exact hx
+    · intro h; exact ⟨(true, i), h, by simp, rfl⟩
+  constructor
+  · rintro ⟨S, hS, hall, rfl⟩
+    simp only [List.mem_cons, List.mem_nil_iff, or_false] at hS
+    rcases hS with rfl | rfl
+    · left
+      exact ⟨fun i hi => (mem1 i).mp (hall i (by simpa [S1, ← hlen1] using hi)), by simp [S1, hf1]⟩
+    · right
+      exact ⟨fun i hi => (mem2 i).mp (hall i (by simpa [S2, ← hlen2] using hi)), by simp [S2, hf2]⟩
+  · rintro (⟨hall, rfl⟩ | ⟨hall, rfl⟩)
+    · exact ⟨S1, by simp, fun i hi => (mem1 i).mpr (hall i (by simpa [S1, ← hlen1] using hi)), by simp [S1, hf1]⟩
+    · exact ⟨S2, by simp, fun i hi => (mem2 i).mpr (hall i (by simpa [S2, ← hlen2] using hi)), by simp [S2, hf2]⟩
 
 /-- witness for K3 (F33), a concrete test: the same complete set in a second batch is delivered a second time -/
 theorem redelivered_on_full_replay :
